@@ -716,21 +716,21 @@ def exhaustive_small(tier, shard, nshards):
 
 
 CLAUSES = [
-    Clause("heaviest_scc", trim_case(), run_heaviest, quick=1600, thorough=40000, exhaustive=exhaustive_small),
-    Clause("strongly_connected", trim_case(), run_connected, quick=800, thorough=20000, exhaustive=exhaustive_small),
-    Clause("submatrix", trim_case(renumber=True), run_submatrix, quick=800, thorough=20000,
+    Clause("heaviest_scc", trim_case(), run_heaviest, quick=1600, thorough=30000, exhaustive=exhaustive_small),
+    Clause("strongly_connected", trim_case(), run_connected, quick=800, thorough=16000, exhaustive=exhaustive_small),
+    Clause("submatrix", trim_case(renumber=True), run_submatrix, quick=800, thorough=16000,
            exhaustive=exhaustive_small),
-    Clause("inplace", trim_case(renumber=False), run_inplace, quick=800, thorough=20000, exhaustive=exhaustive_small),
-    Clause("mapping", trim_case(), run_mapping, quick=1000, thorough=20000, exhaustive=exhaustive_small),
-    Clause("variants_agree", trim_case(), run_variants, quick=800, thorough=20000, exhaustive=exhaustive_small),
-    Clause("container_type", trim_case(), run_container, quick=1200, thorough=20000),
+    Clause("inplace", trim_case(renumber=False), run_inplace, quick=800, thorough=16000, exhaustive=exhaustive_small),
+    Clause("mapping", trim_case(), run_mapping, quick=1000, thorough=16000, exhaustive=exhaustive_small),
+    Clause("variants_agree", trim_case(), run_variants, quick=800, thorough=16000, exhaustive=exhaustive_small),
+    Clause("container_type", trim_case(), run_container, quick=1200, thorough=16000),
     Clause("dense_sparse_agree", trim_case(containers=["coo_matrix", "csr_matrix", "csc_array"]), run_dense_sparse,
-           quick=250, thorough=5000),
-    Clause("input_unchanged", trim_case(), run_unchanged, quick=1000, thorough=20000),
+           quick=250, thorough=4000),
+    Clause("input_unchanged", trim_case(), run_unchanged, quick=1000, thorough=16000),
     Clause("msm_mapping", assigns_case(), run_msm, quick=500, thorough=10000),
-    Clause("heaviest_scc_large", trim_case(max_n=14), run_heaviest, quick=0, thorough=15000),
-    Clause("mapping_large", trim_case(max_n=14), run_mapping, quick=0, thorough=8000),
-    Clause("variants_agree_large", trim_case(max_n=14), run_variants, quick=0, thorough=8000),
-    Clause("msm_mapping_large", assigns_case(max_states=12, max_traj=12, max_len=40), run_msm, quick=0, thorough=4000),
+    Clause("heaviest_scc_large", trim_case(max_n=14), run_heaviest, quick=0, thorough=10000),
+    Clause("mapping_large", trim_case(max_n=14), run_mapping, quick=0, thorough=6000),
+    Clause("variants_agree_large", trim_case(max_n=14), run_variants, quick=0, thorough=6000),
+    Clause("msm_mapping_large", assigns_case(max_states=12, max_traj=12, max_len=40), run_msm, quick=0, thorough=3000),
 ]
 MATCHERS = {}
